@@ -22,6 +22,10 @@ MODES = ["det", "ssa", "safe", "volume", "delay", "delay_volume", "safe_delay_vo
 
 def gen_case(rnd, i):
     dt = 2.0 ** rnd.randint(-5, -2)
+    if i % 4 == 3:
+        # a decimal step: the grid times k*dt carry binary round-off (3*0.1 = 0.30000000000000004) and a scheduled time that
+        # is an exact element of the grid needs all 17 digits
+        dt = rnd.choice([0.1, 0.3, 0.05, 0.7])
     n = rnd.randint(20, 120)
     speed = ["none", "slow", "fast"][i % 3]
     params = {}
@@ -201,9 +205,13 @@ def run_case(case):
     p0 = dict(sp["params"])
 
     def bad(key, mode, msg):
-        if len(viol) < 6:
-            viol.append({"key": "C09/%s:%s" % (key, "lineage" if mode.startswith("lineage") else ("deterministic" if mode == "det" else mode.replace("_class", ""))),
-                         "msg": "mode=%s dt=%g n=%d reactions=%s: %s" % (mode, dt, n, case["speed"], msg)})
+        if len(viol) < 12:
+            k_ = "C09/%s:%s" % (key, "lineage" if mode.startswith("lineage") else ("deterministic" if mode == "det" else mode.replace("_class", "")))
+            if dt * 1024 != int(dt * 1024) and mode in ("volume", "delay_volume", "safe_delay_volume", "lineage", "lineage_safe") and key in ("dt-rule-count", "ode-rule-step", "scheduled-rule-missed"):
+                # mechanism (known finding): the volume-aware and lineage simulators keep their own dt clock by repeated addition; with a step
+                # that is not exactly representable it drifts off the reported grid k*dt
+                k_ = "C09/volume-dt-clock-drift:decimal-step"
+            viol.append({"key": k_, "msg": "mode=%s dt=%g n=%d reactions=%s: %s" % (mode, dt, n, case["speed"], msg)})
 
     for mode in MODES:
         for seed in (case["seeds"][:1] if mode == "det" else case["seeds"]):
